@@ -19,6 +19,9 @@ type MOp struct {
 	// M = 1: the call goes to a SECOND, independent Map (initially empty) used in the same run: state must never
 	// leak between two Map values (package-level caches, shared scratch space, a lock common to all maps)
 	M int `json:"m,omitempty"`
+	// Rep > 1 (sequential unit only): the call is repeated Rep times (tens of thousands of cheap calls in a row:
+	// internal counters such as the miss counter must not wrap into wrong behaviour)
+	Rep int `json:"rep,omitempty"`
 }
 
 // Rec is one executed call with its stamps and results.
